@@ -474,3 +474,112 @@ def gen_program(rnd, nsnip=6, toolchain=True, npkgs=3, must=()):
     for s in chosen:
         s(p)
     return p
+
+
+# ---------------------------------------------------------------------------------------------------------------
+# reflection family (C08): every Run prints names obtained through reflection / encoding/json / %+v, never the
+# package-qualified String() form (package names are obfuscated and not part of the name table)
+# ---------------------------------------------------------------------------------------------------------------
+
+REFLECT_HELPERS = '''
+func %(desc)s(v any) string {
+	t := reflect.TypeOf(v)
+	for t.Kind() == reflect.Pointer || t.Kind() == reflect.Slice || t.Kind() == reflect.Array || t.Kind() == reflect.Map {
+		t = t.Elem()
+	}
+	out := t.Name() + "{"
+	if t.Kind() == reflect.Struct {
+		for i := 0; i < t.NumField(); i++ {
+			f := t.Field(i)
+			out += f.Name
+			ft := f.Type
+			for ft.Kind() == reflect.Pointer || ft.Kind() == reflect.Slice || ft.Kind() == reflect.Array || ft.Kind() == reflect.Map {
+				ft = ft.Elem()
+			}
+			if ft.Kind() == reflect.Struct {
+				out += ":" + ft.Name() + "(" + strconv.Itoa(ft.NumField())
+				for j := 0; j < ft.NumField(); j++ {
+					out += "," + ft.Field(j).Name
+				}
+				out += ")"
+			}
+			out += ";"
+		}
+	}
+	return out + "}"
+}
+func %(h1)s(v any) string { return %(desc)s(v) }
+func %(h2)s(v any) string { return %(h1)s(v) }
+func %(h3)s(vs ...any) string { out := ""; for _, v := range vs { out += %(h2)s(v) }; return out }
+'''
+
+
+def s_reflect(p, variant=None):
+    """types declared in a library package; reflected through helper chains from main and from the library itself"""
+    rel = p.lib()
+    rnd = p.rnd
+    desc, h1, h2, h3 = p.n("Describe"), p.n("Via1"), p.n("Via2"), p.n("ViaVariadic")
+    p.add(rel, REFLECT_HELPERS % locals(), {'"reflect"', '"strconv"'})
+    # names that reach reflection carry the KEEP stem: they are documented to remain
+    A, B, C, G, AL = p.n("Alpha", keep=True), p.n("Beta", keep=True), p.n("Gamma", keep=True), p.n("Generic", keep=True), p.n("AliasOf", keep=True)
+    fa, fb, fc, fd, fe = [p.n(x, keep=True) for x in ("FieldA", "FieldB", "FieldC", "FieldD", "FieldE")]
+    ua = p.n("unexp", False, keep=True)
+    sink, sinkd = p.n("SinkAny"), p.n("SinkTyped")
+    p.add(rel, """
+type %(A)s struct { %(fa)s int; %(ua)s string }
+type %(B)s struct {
+	%(fb)s []%(A)s
+	%(fc)s map[string]*%(A)s
+	%(A)s
+	%(fd)s struct{ %(fe)s [2]%(C)s }
+}
+type %(C)s struct{ %(fe)s bool `json:"renamed,omitempty"` }
+type %(G)s[T any] struct{ %(fa)s T; %(fb)s []T }
+type %(AL)s = %(C)s
+var %(sink)s any
+var %(sinkd)s %(A)s
+""" % locals())
+    al = "rf%d" % p.counter
+    body = ["\tout := \"\""]
+    flows = [
+        "out += %(al)s.%(desc)s(%(al)s.%(A)s{})",
+        "out += %(al)s.%(h1)s(&%(al)s.%(B)s{})",
+        "out += %(al)s.%(h2)s([]%(al)s.%(C)s{{}})",
+        "out += %(al)s.%(h3)s(%(al)s.%(G)s[int]{}, map[string]%(al)s.%(AL)s{})",
+        "var d %(al)s.%(A)s; d.%(fa)s = len(args); %(al)s.%(sinkd)s = d; %(al)s.%(sink)s = d; out += %(al)s.%(h2)s(%(al)s.%(B)s{})",
+        "b, _ := json.Marshal(%(al)s.%(B)s{%(fb)s: []%(al)s.%(A)s{{%(fa)s: 1}}}); out += string(b)",
+        "var u %(al)s.%(C)s; _ = json.Unmarshal([]byte(`{\"renamed\":true}`), &u); out += fmt.Sprintf(\"%%+v\", u)",
+    ]
+    chosen = flows if variant == "all" else rnd.sample(flows, 5)
+    for f in chosen:
+        body.append("\t{ " + f % locals() + " }")
+    body.append("\treturn out")
+    p.run_func("", "\n".join(body), {'%s "%s"' % (al, p.ipath(rel)), '"encoding/json"', '"fmt"'})
+    p.features.append("reflect")
+    # the stored-then-passed shape (known order dependence before the fix): inside ONE function of the library, a store
+    # to a global of an already reflected type precedes a helper call that is the only path of another type to reflection
+    ST, AS, sf, af, gst, use = p.n("Stored", keep=True), p.n("AfterStore", keep=True), p.n("StoredField", keep=True), p.n("AfterField", keep=True), p.n("GlobalStored"), p.n("UseStored")
+    p.add(rel, """
+type %(ST)s struct{ %(sf)s int }
+type %(AS)s struct{ %(af)s string; Nested %(ST)s }
+var %(gst)s %(ST)s
+func %(use)s(d %(ST)s) string { return reflect.TypeOf(d).Name() }
+""" % locals(), {'"reflect"'})
+    p.run_func(rel, """	var d %(ST)s
+	d = %(ST)s{len(args)}
+	%(gst)s = d
+	%(sink)s = d
+	return %(h2)s(%(AS)s{%(af)s: "x"}) + " " + %(use)s(d)""" % locals())
+    # a struct type whose ONLY way to reflection is a fmt verb: garble does not treat fmt.* as reflecting APIs
+    # (known finding C08); kept on its own output line so that it cannot mask anything else
+    F1, F2 = p.n("OnlyFmt", keep=True), p.n("FmtField", keep=True)
+    p.add(rel, "type %(F1)s struct{ %(F2)s int }\n" % locals())
+    p.fmt_only_line = len(p.runs)
+    p.run_func("", "\treturn fmt.Sprintf(\"%%+v|%%+v\", %(al)s.%(F1)s{%(F2)s: len(args)}, struct{ Anon%(F2)s int }{1})" % locals(), {'%s "%s"' % (al, p.ipath(rel)), '"fmt"'})
+
+
+def gen_reflect_program(rnd, variant=None):
+    p = Prog(rnd, npkgs=3)
+    s_reflect(p, variant)
+    s_consts(p)
+    return p
